@@ -148,7 +148,8 @@ impl Replayer {
         // the complete sweep (every byte prefix, the whole corpus) is made once per environment and worker;
         // further event sequences over the same environment use a rotating sample of the concretisations
         let envkey = format!("{}|{}|{}", sel0, ac0, dir0);
-        let first = self.swept_envs.insert(envkey);
+        let first = v["focus"].as_str().unwrap_or("all") == "all" && self.swept_envs.insert(envkey);
+        // (the damage-focused instance leaves the complete sweeps to the main instance)
         let nvar = if first { full } else { full.min(4) };
         let offset = if first { 0 } else { (self.rep.behaviours as usize * 7) % full.max(1) };
         let mut nontrivial = false;
@@ -271,14 +272,48 @@ impl Replayer {
                         ctx = None;
                         learned = None;
                     }
+                    "damage" => {
+                        // the auto-correct file is replaced while the context lives (newer modification time)
+                        self.put(&acp(&home), ac_now, variant + i, false, &torn);
+                        if let Ok(f) = std::fs::OpenOptions::new().write(true).open(acp(&home)) {
+                            let _ = f.set_modified(std::time::SystemTime::now() + std::time::Duration::from_secs(100 * (i as u64 + 1)));
+                        }
+                    }
                     "update" => {
-                        if let Some(c) = ctx.as_mut() {
+                        if let Some(mut c) = ctx.take() {
                             let o = c.update(&cfg);
                             self.rep.events += 1;
                             if o.kind == "panic" {
                                 self.rep.violation("fault", &format!("step {} (update) over auto-correct file '{}': {}", i, ac_now, o.panic.unwrap_or_default()), case(i));
                                 return;
                             }
+                            // re-loading = what a context created now sees (as long as nothing was learned in memory only)
+                            let committed = steps[..i].iter().any(|s| s["op"] == "commit");
+                            if !committed {
+                                let live = self.probe_words(&mut c);
+                                let fresh = match Ctx::new(&cfg, &home) {
+                                    Ok(mut f) => self.probe_words(&mut f),
+                                    Err(p) => Err(format!("creating a context: {}", p)),
+                                };
+                                match (live, fresh) {
+                                    (Ok(a), Ok(b)) => {
+                                        nontrivial = true;
+                                        self.rep.compared += 1;
+                                        for (x, y) in a.iter().zip(b.iter()) {
+                                            if x.rendering() != y.rendering() {
+                                                self.rep.violation("fault", &format!("step {} (update) over auto-correct file '{}': after re-loading the context answers {:?} sel={}, a context created now over the same files answers {:?} sel={}",
+                                                                                     i, ac_now, x.cands, x.sel, y.cands, y.sel), case(i));
+                                                return;
+                                            }
+                                        }
+                                    }
+                                    (Err(p), _) | (_, Err(p)) => {
+                                        self.rep.violation("fault", &format!("step {} (after update) over auto-correct file '{}': {}", i, ac_now, p), case(i));
+                                        return;
+                                    }
+                                }
+                            }
+                            ctx = Some(c);
                         }
                     }
                     _ => {}
